@@ -189,12 +189,20 @@ func caseC20(r *rand.Rand, cw *CalcWriter, label string, dir string, seed int64)
 	case 0: // sample without replacement
 		n := 1 + r.Intn(8)
 		k := 1 + r.Intn(n+2)
+		if r.Intn(5) == 0 { // "whatever the input size": a long file now and then
+			n = 20 + r.Intn(40)
+			k = 1 + r.Intn(n)
+		}
 		cw.emit(drawsEvent(label, "reservoir", n, k, seed, false, "sample", func(ev *CEvent) (interface{}, error) {
 			return sampleTreesRun(dir, n, k, false, seed)
 		}))
 	case 1: // with replacement
 		n := 1 + r.Intn(6)
 		k := 1 + r.Intn(4)
+		if r.Intn(5) == 0 {
+			n = 15 + r.Intn(30)
+			k = 1 + r.Intn(12)
+		}
 		cw.emit(drawsEvent(label, "replace", n, k, seed, false, "sample --replace", func(ev *CEvent) (interface{}, error) {
 			return sampleTreesRun(dir, n, k, true, seed)
 		}))
@@ -270,6 +278,9 @@ func caseC20(r *rand.Rand, cw *CalcWriter, label string, dir string, seed int64)
 	default: // uniform tree
 		rooted := r.Intn(2) == 0
 		n := 3 + r.Intn(8)
+		if r.Intn(6) == 0 {
+			n = 15 + r.Intn(20)
+		}
 		algo := "utree"
 		if rooted {
 			algo = "rtree"
